@@ -98,6 +98,7 @@ fn main() {
       "C11" => Some(chain::runes::run(&ctx, "C11")),
       "C18" => Some(server::json::run(&ctx)),
       "C19" => Some(server::content::run(&ctx)),
+      "C21" => Some(wallet::run_c21(&ctx)),
       "C22" => Some(wallet::run_c22(&ctx)),
       "C24" => Some(wallet::run_c24(&ctx)),
       "C23" => Some(wallet::run_c23(&ctx)),
